@@ -57,6 +57,11 @@ class Pool:
         self.ex.shutdown(wait=False, cancel_futures=True)
 
 
+def _strip_prop(text):
+    toks = text.split()
+    return " ".join(t for i, t in enumerate(toks) if not (i == 0 and t.startswith("property=")))
+
+
 def replay(path):
     d = json.load(open(path))
     pid = d["property"]
@@ -74,7 +79,7 @@ def replay(path):
         open_, _ = load_known(pid)
         for k in open_:
             if k.get("sig") == r.sig:
-                print(f"KNOWN-FINDING: property={pid} {k['text']}")
+                print(f"KNOWN-FINDING: property={pid} {_strip_prop(k['text'])}")
                 return 0
         print(f"VIOLATION property={pid} replay={path}")
         return 1
@@ -186,7 +191,7 @@ def main(argv):
     for k in open_known:
         seen = known_seen.get(k.get("sig"))
         note = f"(reproduced {seen['count']}x this run)" if seen else "(not exercised this run)"
-        print(f"KNOWN-FINDING: property={pid} {k['text']} {note}")
+        print(f"KNOWN-FINDING: property={pid} {_strip_prop(k['text'])} {note}")
     replay_paths = []
     if new_viol:
         rdir = os.path.join(os.environ.get("VERIF_REPLAY_DIR", os.path.join(HERE, "replays")), pid)
